@@ -482,6 +482,7 @@ func finish() {
 // what happened in a form the driver parses.
 func RunReplay(entries map[string]func()) {
 	load()
+	defer removeTempFiles()
 	f, ok := entries[rp.Entry]
 	if !ok {
 		fmt.Println("VERIF-OUTCOME: no-such-entry " + rp.Entry)
@@ -859,6 +860,30 @@ const (
 	JArray
 	JObject
 )
+
+// TempFile stores a document in a file of its own and returns the path (for loaders that only
+// take a file name). Under the engine os.Open on that path yields the document.
+func TempFile(b []byte) string {
+	f, err := os.CreateTemp("", "verif-doc-*.yaml")
+	if err != nil {
+		panic(err)
+	}
+	defer f.Close()
+	if _, err := f.Write(b); err != nil {
+		panic(err)
+	}
+	tempFiles = append(tempFiles, f.Name())
+	return f.Name()
+}
+
+var tempFiles []string
+
+func removeTempFiles() {
+	for _, f := range tempFiles {
+		os.Remove(f)
+	}
+	tempFiles = nil
+}
 
 func JSONBytes(j J) []byte {
 	var sb strings.Builder
